@@ -373,6 +373,17 @@ impl<'a> crate::fdl::FdlApplication for DpMaster<'a> {
                             };
                             return None;
                         }
+
+                        // Only one peripheral event can be reported per call.  End this turn
+                        // here so an event of a following peripheral is not lost; the cycle
+                        // continues with the next peripheral on the next call.
+                        if peripheral_event.is_some() {
+                            self.state.last_events = DpEvents {
+                                peripheral: peripheral_event,
+                                ..Default::default()
+                            };
+                            return None;
+                        }
                     }
                 }
             } else {
